@@ -136,4 +136,72 @@ theorem tsol_only_if_nucleated (hi : i < inp.nVials) (h : (finalV inp kCN i).tSo
   exact tsol_needs_tnuc (vtraj_chain inp kCN i hi) (fresh_start inp kCN i hi) (NN inp)
     (by rw [vtraj_length]; unfold NN; omega) h
 
+
+/-- **values derived from the stored states equal the recorded ones** (times): for a stored
+vial whose ice is visible in some column (i.e. that did not nucleate in the very last step — see
+`tnuc_last_step_counterexample`), `nucleationTimes(fromStates=True)` and
+`solidificationTimes(fromStates=True)` return the recorded `t_nucleation` / `t_solidification`. -/
+theorem fromStates_times_eq (h : Hyp inp kCN i)
+    (hvis : (finalV inp kCN i).tNuc ≠ none → never 0 (sigmaRow inp kCN i) = false) :
+    tNucStates [true] (timeVec (NN inp) inp.p.dt) [sigmaRow inp kCN i] = [(finalV inp kCN i).tNuc] ∧
+    tSolStates inp.p.threshold [true] (timeVec (NN inp) inp.p.dt) [sigmaRow inp kCN i]
+      = [(finalV inp kCN i).tSol] := by
+  obtain ⟨s1, s2⟩ := tsol_def h
+  simp only [tSolStates, tNucStates, crossTimes, scatter, List.map_cons, List.map_nil, List.zipWith_cons_cons,
+    List.zipWith_nil_right, zero_real]
+  cases hb : never 0 (sigmaRow inp kCN i)
+  · -- ice visible
+    obtain ⟨e1, e2⟩ := tnuc_first_ice h hb
+    refine ⟨by simp [e1], ?_⟩
+    cases hb2 : never inp.p.threshold (sigmaRow inp kCN i)
+    · obtain ⟨τ, hτ, hs, _, _⟩ := s1 hb2
+      obtain ⟨hk1, _, _⟩ := row_cross inp kCN i _ hb2
+      rw [hτ] at e1 e2
+      have : τ = timeAt inp.p.dt (crossIdx 0 (sigmaRow inp kCN i)) := Option.some.inj e2
+      simp [timeVec_get _ _ h.dt_pos _ hk1, ← e1, optSub, hs]
+    · simp [optSub, s2 hb2]
+  · have hn : (finalV inp kCN i).tNuc = none := by
+      by_contra hne
+      rw [hvis hne] at hb; exact absurd hb (by simp)
+    have hb2 : never inp.p.threshold (sigmaRow inp kCN i) = true := by
+      rw [never_iff] at hb ⊢
+      intro x hx hlt
+      exact hb x hx (lt_of_le_of_lt h.thr hlt)
+    simp [hn, hb2, optSub, s2 hb2]
+
+/-- **values derived from the stored states** (temperature) — the true weaker statement:
+`nucleationTemperatures(fromStates=True)` returns the temperature stored in the column BEFORE the
+first ice, and the recorded `T_nucleation` is that temperature plus the sensible update `q/hl·dt`
+of the nucleating step: the two differ by exactly one step's temperature change
+(they are NOT equal, see `fromStates_Tnuc_counterexample`). -/
+theorem fromStates_Tnuc_within_one_step (h : Hyp inp kCN i) (hice : never 0 (sigmaRow inp kCN i) = false) :
+    ∃ (q Tpre : ℝ), TNucStates [true] [tempRow inp kCN i] [sigmaRow inp kCN i] = [some Tpre] ∧
+      (finalV inp kCN i).TNuc = some (Tpre + q / inp.p.c.hl * inp.p.dt) := by
+  obtain ⟨h0, q, Tpre, hT, hN, _⟩ := Tnuc_step_temperature h hice
+  refine ⟨q, Tpre, ?_, hN⟩
+  simp only [TNucStates, scatter, List.zip_cons_cons, List.zip_nil_right, List.map_cons, List.map_nil, zero_real,
+    hice]
+  simp [getWrapPrev, Nat.ne_of_gt h0, hT]
+
+/-- **the counter on the states path** counts the stored vials whose `σ` exceeds the threshold in
+the column of the FIRST GRID TIME ≥ t (for every query time not beyond the last grid time). -/
+theorem counter_states (times : List ℝ) (thr : Option ℝ) (solThr : ℝ) (t : List ℝ) (Xs : List (List ℝ))
+    (a b : List (Option ℝ)) :
+    sigmaCounter true times thr solThr true t Xs a b
+      = .ok (times.map fun q => countAbove (thr.getD solThr) Xs (timeIdx t q)) ∧
+    ∀ q, (∃ x ∈ t, q ≤ x) →
+      ∃ hI : timeIdx t q < t.length, q ≤ t[timeIdx t q] ∧ ∀ j (hj : j < t.length), j < timeIdx t q → t[j] < q := by
+  constructor
+  · simp only [sigmaCounter, Bool.not_true, Bool.false_eq_true, if_false, sigmaCount1, if_true]
+    induction times with
+    | nil => rfl
+    | cons q r ih => simp only [List.mapM_cons, List.map_cons, ih]; rfl
+  · intro q hq
+    obtain ⟨x, hx, hqx⟩ := hq
+    obtain ⟨hI, h1, h2⟩ := argmaxBool_spec (fun x => decide (q ≤ x)) t ⟨x, hx, by simpa using hqx⟩
+    refine ⟨hI, by simpa [timeIdx] using h1, ?_⟩
+    intro j hj hlt
+    have := h2 j hj hlt
+    simpa [timeIdx] using this
+
 end Snow.C12
